@@ -527,12 +527,17 @@ func checkUnlock(c *Ctx, pkg string) {
 					c.Ok(c.fn(fn)+"#lock@"+c.P.Pos(in.Pos()), c.P.Pos(in.Pos()), "Lock; defer Unlock")
 					continue
 				}
-				// plain unlock: straight-line until Unlock with no other call
+				// plain unlock: straight-line until Unlock, with nothing in between that can call out of the library, block or
+				// start something (quiet calls only: accessors of the library's own objects, the clock)
 				okPlain := false
 				for _, nx := range b.Instrs[i+1:] {
 					if c2, isC := nx.(ssa.CallInstruction); isC {
 						if dc := calleeOf(c2.Common()); dc != nil && dc.Name() == unlockName && sameAddr(c2.Common().Args[0], mtx) {
 							okPlain = true
+							break
+						}
+						if _, isGo := nx.(*ssa.Go); !isGo && c.quietCall(c2.Common(), 0) {
+							continue
 						}
 						break
 					}
@@ -552,6 +557,129 @@ func checkUnlock(c *Ctx, pkg string) {
 		}
 	}
 	c.Count("Lock sites in "+pkg, n)
+}
+
+// ifaceTargets: the concrete in-scope methods a call of iface.name can reach; a method an implementer merely promotes
+// from an embedded interface is followed to that interface's implementers. nil when some target is unknown.
+func (c *Ctx) ifaceTargets(iface *types.Named, name string, depth int) []*ssa.Function {
+	if depth > 3 {
+		return nil
+	}
+	var out []*ssa.Function
+	for _, im := range c.P.Implementers(iface) {
+		ms := types.NewMethodSet(types.NewPointer(im))
+		var sel *types.Selection
+		for i := 0; i < ms.Len(); i++ {
+			if ms.At(i).Obj().Name() == name {
+				sel = ms.At(i)
+			}
+		}
+		if sel == nil {
+			return nil
+		}
+		f, isF := sel.Obj().(*types.Func)
+		if !isF {
+			return nil
+		}
+		if recv := f.Type().(*types.Signature).Recv(); recv != nil {
+			if rn, isN := recv.Type().(*types.Named); isN {
+				if _, isI := rn.Underlying().(*types.Interface); isI {
+					if rn.Origin().Obj() == iface.Obj() {
+						continue // promotes the very interface being resolved: its other implementers are the targets
+					}
+					sub := c.ifaceTargets(rn.Origin(), name, depth+1)
+					if len(sub) == 0 {
+						return nil
+					}
+					out = append(out, sub...)
+					continue
+				}
+			}
+		}
+		g := c.P.Prog.FuncValue(f.Origin())
+		if g == nil {
+			return nil
+		}
+		out = append(out, origin(g))
+	}
+	return out
+}
+
+// quietCall: the call stays inside the library and cannot run user code, block, lock or spawn: a static or
+// interface call all of whose possible targets are in-scope functions with only quiet calls, no channel operation,
+// no go statement; calls into time, math, sync/atomic, errors and the builtins are quiet.
+func (c *Ctx) quietCall(cc *ssa.CallCommon, depth int) bool {
+	if depth > 4 {
+		return false
+	}
+	if _, isB := cc.Value.(*ssa.Builtin); isB {
+		return true
+	}
+	var targets []*ssa.Function
+	if cc.IsInvoke() {
+		n, isN := cc.Value.Type().(*types.Named)
+		if !isN {
+			return false
+		}
+		targets = c.ifaceTargets(n.Origin(), cc.Method.Name(), 0)
+		if len(targets) == 0 {
+			return false
+		}
+	} else if cal := calleeOf(cc); cal != nil {
+		targets = []*ssa.Function{cal}
+	} else {
+		return false // a function value: possibly user code
+	}
+	for _, t := range targets {
+		if !c.P.InScope[t] {
+			pk := ""
+			if t.Pkg != nil {
+				pk = t.Pkg.Pkg.Path()
+			}
+			switch pk {
+			case "time", "math", "sync/atomic", "errors":
+				if t.Name() == "Sleep" || t.Name() == "AfterFunc" || t.Name() == "NewTimer" {
+					return false
+				}
+				continue
+			}
+			return false
+		}
+		if c.quiet == nil {
+			c.quiet = map[*ssa.Function]int{}
+		}
+		switch c.quiet[t] {
+		case 1:
+			continue
+		case 2:
+			return false
+		}
+		c.quiet[t] = 1 // assume quiet while looking (recursion)
+		ok := true
+		for _, b := range t.Blocks {
+			for _, in := range b.Instrs {
+				switch x := in.(type) {
+				case *ssa.Go, *ssa.Select, *ssa.Send:
+					ok = false
+				case *ssa.UnOp:
+					if x.Op == token.ARROW {
+						ok = false
+					}
+				case ssa.CallInstruction:
+					if cal := calleeOf(x.Common()); cal != nil && strings.HasPrefix(qualName(cal), "(*sync.") {
+						ok = false // takes a lock itself
+					} else if !c.quietCall(x.Common(), depth+1) {
+						ok = false
+					}
+				}
+			}
+		}
+		if !ok {
+			c.quiet[t] = 2
+			return false
+		}
+	}
+	return true
 }
 
 func sameAddr(a, b ssa.Value) bool {
@@ -1546,10 +1674,51 @@ func returnsPolicyResult(sig *types.Signature) bool {
 	return n != nil && n.Obj().Name() == "PolicyResult" && n.Obj().Pkg() != nil && n.Obj().Pkg().Name() == "common"
 }
 
+// privateCopy: the execution value is one nobody else writes: the attempt / info carried by an event struct, the
+// result of CopyWithResult or copy, or a parameter that receives such a value at every call site.
+func privateCopy(ix *Index, fn *ssa.Function, v ssa.Value, depth int) bool {
+	if depth > 3 {
+		return false
+	}
+	isEvent := func(t types.Type) bool {
+		if p, ok := t.(*types.Pointer); ok {
+			t = p.Elem()
+		}
+		n, ok := t.(*types.Named)
+		return ok && n.Obj().Pkg() != nil && n.Obj().Pkg().Name() == "failsafe" && strings.HasSuffix(n.Obj().Name(), "Event")
+	}
+	switch x := v.(type) {
+	case *ssa.ChangeInterface:
+		return privateCopy(ix, fn, x.X, depth)
+	case *ssa.MakeInterface:
+		return privateCopy(ix, fn, x.X, depth)
+	case *ssa.TypeAssert:
+		return privateCopy(ix, fn, x.X, depth)
+	case *ssa.Field:
+		return isEvent(x.X.Type())
+	case *ssa.UnOp:
+		if fa, ok := x.X.(*ssa.FieldAddr); ok && x.Op == token.MUL {
+			return isEvent(fa.X.Type())
+		}
+	case *ssa.Call:
+		if x.Call.IsInvoke() {
+			return x.Call.Method.Name() == "CopyWithResult"
+		}
+		if cal := calleeOf(&x.Call); cal != nil {
+			return cal.Name() == "CopyWithResult" || canonName(cal) == "copy"
+		}
+	case *ssa.Parameter:
+		return everySiteArg(ix, fn, x, func(caller *ssa.Function, a ssa.Value) bool { return privateCopy(ix, caller, a, depth+1) })
+	}
+	return false
+}
+
 // c14LiveReads: library-internal calls of the unlocked getters on an execution.
 func c14LiveReads(c *Ctx) {
 	c.Rule("live-reads")
-	getters := map[string]bool{"LastResult": true, "LastError": true, "AttemptStartTime": true, "ElapsedAttemptTime": true, "IsHedge": true}
+	// IsHedge is not among them: the flag is set on the fresh copy CopyForHedge builds and never written again
+	// (C17.counters: isHedge#writers), so reading it needs no lock
+	getters := map[string]bool{"LastResult": true, "LastError": true, "AttemptStartTime": true, "ElapsedAttemptTime": true}
 	reviewed := map[string]string{
 		"ratelimiter.(*rateLimiter).acquirePermitsWithMaxWait#LastError": "read after receiving from exec.Canceled(): happens after Cancel's stores (context cancelled last, under the lock)",
 		"failsafehttp.DelayFunc#LastResult":                              "DelayFunc is a user-level delay function: it receives a private copy (C14.escape-to-user)",
@@ -1605,6 +1774,21 @@ func c14LiveReads(c *Ctx) {
 					}
 				}
 				if inReviewed {
+					continue
+				}
+				// the receiver is a private copy by construction: what an event carries (C14.escape-to-user), or the
+				// result of CopyWithResult / copy
+				var recvVal ssa.Value
+				if isCall {
+					if cc.Common().IsInvoke() {
+						recvVal = cc.Common().Value
+					} else if len(cc.Common().Args) > 0 {
+						recvVal = cc.Common().Args[0]
+					}
+				} else if mc, isMC := in.(*ssa.MakeClosure); isMC && len(mc.Bindings) == 1 {
+					recvVal = mc.Bindings[0]
+				}
+				if recvVal != nil && privateCopy(ix, fn, recvVal, 0) {
 					continue
 				}
 				ok = false
